@@ -162,8 +162,15 @@ func (r *seqRun) body() {
 			r.fail(key, "step %d: after %s %d accepted bytes are still not in the sink", step, what, held)
 			return
 		}
-		if len(sk.calls) == 0 || !sk.calls[len(sk.calls)-1].sync {
-			r.fail(key, "step %d: after %s the sink was not synced after its last write", step, what)
+		// the sink must have been synced after the last write it received
+		for i := len(sk.calls) - 1; i >= 0; i-- {
+			if sk.calls[i].sync {
+				break
+			}
+			if len(sk.calls[i].data) > 0 {
+				r.fail(key, "step %d: after %s the sink was not synced after its last write", step, what)
+				break
+			}
 		}
 	}
 
